@@ -98,6 +98,19 @@ class Fold(ast.NodeTransformer):
                 return ast.copy_location(ast.Constant(value=v), c)
         return c
 
+    def visit_Call(self, c: ast.Call):
+        self.generic_visit(c)
+        # f(*(<a>, <b>)) -> f(<a>, <b>)
+        if any(isinstance(a, ast.Starred) and isinstance(a.value, (ast.Tuple, ast.List)) for a in c.args):
+            new = []
+            for a in c.args:
+                if isinstance(a, ast.Starred) and isinstance(a.value, (ast.Tuple, ast.List)):
+                    new += list(a.value.elts)
+                else:
+                    new.append(a)
+            c.args = new
+        return c
+
     def visit_UnaryOp(self, u: ast.UnaryOp):
         self.generic_visit(u)
         if isinstance(u.op, ast.Not) and self._const(u.operand) is not None:
@@ -297,7 +310,10 @@ class Helper:
     def __init__(self, node: ast.FunctionDef, cls: Optional[str]):
         self.node, self.cls, self.name = node, cls, node.name
         a = node.args
-        self.ok = not (a.vararg or a.kwarg or node.decorator_list or a.posonlyargs and False)
+        # @np.errstate(...) only silences floating-point warnings: it does not change any value
+        decos = [d for d in node.decorator_list if not (isinstance(d, ast.Call) and isinstance(d.func, ast.Attribute) and d.func.attr == "errstate"
+                                                        and isinstance(d.func.value, ast.Name) and d.func.value.id in ("np", "numpy"))]
+        self.ok = not (a.vararg or a.kwarg or decos)
         self.params = [p.arg for p in a.posonlyargs + a.args] + [p.arg for p in a.kwonlyargs]
         self.npos = len(a.posonlyargs + a.args)
         self.defaults: Dict[str, ast.expr] = {}
@@ -368,8 +384,6 @@ def inline_module(tree: ast.Module, modname: str, known: Set[str], stats: Dict[s
                             and not (m_.name.startswith("__") and m_.name.endswith("__")):
                         helpers[(n.name, m_.name)] = Helper(m_, n.name)
         helpers = {k: h for k, h in helpers.items() if h.ok}
-        if not helpers:
-            return
         # clean the helpers up first (their own bodies only)
         for h in helpers.values():
             _unroll_comprehensions(h.node)
@@ -388,7 +402,8 @@ def inline_module(tree: ast.Module, modname: str, known: Set[str], stats: Dict[s
             elif isinstance(n, ast.ClassDef):
                 owners += [(m_, n.name) for m_ in n.body if isinstance(m_, ast.FunctionDef)]
         for fn, cls in owners:
-            if _inline_into(fn, cls, helpers, stats):
+            q = f"{modname}.{cls}.{fn.name}" if cls else f"{modname}.{fn.name}"
+            if _inline_into(fn, cls, helpers, stats, q, known):
                 progress = True
         # drop helpers that are no longer referenced
         for (cls, name), h in list(helpers.items()):
@@ -433,8 +448,36 @@ def _fresh(base: str, taken: Set[str]) -> str:
     return f"{base}_{k}"
 
 
-def _inline_into(fn: ast.FunctionDef, cls: Optional[str], helpers, stats: Dict[str, int]) -> bool:
+def _nested_helpers(fn: ast.FunctionDef, qual: str, known: Set[str]) -> Dict[Tuple[Optional[str], str], "Helper"]:
+    """closures defined in `fn` that are only ever called there (never passed on, returned or stored): a call of a
+    closure reads the enclosing variables at call time, which is exactly what the inlined body does"""
+    out = {}
+    for n in _own_nodes(fn):
+        if isinstance(n, ast.FunctionDef) and f"{qual}.{n.name}" not in known:
+            loads = [x for x in ast.walk(fn) if isinstance(x, ast.Name) and x.id == n.name and isinstance(x.ctx, ast.Load)]
+            called = [c for c in ast.walk(fn) if isinstance(c, ast.Call) and isinstance(c.func, ast.Name) and c.func.id == n.name]
+            defs = [x for x in _own_nodes(fn) if isinstance(x, ast.FunctionDef) and x.name == n.name]
+            if len(defs) == 1 and loads and len(loads) == len(called) and not any(any(x is c for x in ast.walk(n)) for c in called):
+                h = Helper(n, None)
+                # the closure must not rebind names of the enclosing function (it cannot without nonlocal) and its own
+                # locals must not be read by the enclosing function afterwards -- they are renamed on collision anyway
+                if h.ok:
+                    out[(None, n.name)] = h
+    return out
+
+
+def _inline_into(fn: ast.FunctionDef, cls: Optional[str], helpers, stats: Dict[str, int], qual: str = "", known: Optional[Set[str]] = None) -> bool:
     progress = False
+    nested = _nested_helpers(fn, qual, known) if known is not None else {}
+    if nested:
+        helpers = {**helpers, **nested}
+        for h in nested.values():
+            _unroll_comprehensions(h.node)
+            from .desugar import _splat as _sp2, _split_parallel as _spp2
+            _spp2(h.node)
+            _sp2(h.node)
+            hh = Helper(h.node, None)
+            h.body, h.ok = hh.body, hh.ok
     # ---------------- expression sites
     class E(ast.NodeTransformer):
         def visit_FunctionDef(self, n):
@@ -470,6 +513,87 @@ def _inline_into(fn: ast.FunctionDef, cls: Optional[str], helpers, stats: Dict[s
             stats["inlined (expression)"] = stats.get("inlined (expression)", 0) + 1
             return ast.fix_missing_locations(ast.copy_location(r, c))
     E().visit(fn)
+    # ---------------- nested sites: hoist `.. h(..) ..` to `tmp = h(..)` in front of a simple statement when nothing
+    # with an effect is evaluated before the call inside that statement
+    def _evaluated_before(root: ast.AST, target: ast.AST) -> Optional[List[ast.AST]]:
+        """nodes of `root` evaluated before `target` starts (left-to-right, arguments before the call); None if the
+        position of target makes its evaluation conditional or repeated"""
+        before: List[ast.AST] = []
+
+        def go(n: ast.AST) -> Optional[bool]:
+            if n is target:
+                return True
+            if isinstance(n, (ast.Lambda, ast.GeneratorExp, ast.ListComp, ast.SetComp, ast.DictComp)):
+                return False if not any(x is target for x in ast.walk(n)) else None
+            if isinstance(n, (ast.BoolOp, ast.IfExp)):
+                kids = list(ast.iter_child_nodes(n))
+                first = n.values[0] if isinstance(n, ast.BoolOp) else n.test
+                for k_ in kids:
+                    if any(x is target for x in ast.walk(k_)):
+                        if k_ is not first:
+                            return None          # conditional evaluation
+                        return go(k_)
+                before.append(n)
+                return False
+            for k_ in ast.iter_child_nodes(n):
+                r_ = go(k_)
+                if r_ is None:
+                    return None
+                if r_:
+                    return True
+            before.append(n)
+            return False
+        r0 = go(root)
+        return before if r0 else None
+
+    hoisted = True
+    while hoisted:
+        hoisted = False
+        for body in _bodies(fn):
+            for i, s in enumerate(body):
+                roots: List[ast.AST] = []
+                if isinstance(s, (ast.Assign, ast.AnnAssign, ast.AugAssign, ast.Expr, ast.Return)) and getattr(s, "value", None) is not None:
+                    roots = [s.value]
+                elif isinstance(s, ast.If):
+                    roots = [s.test]
+                for root in roots:
+                    for c in ast.walk(root):
+                        if not isinstance(c, ast.Call):
+                            continue
+                        if c is root and not isinstance(s, ast.If):
+                            continue                      # whole-value sites are handled below
+                        h, is_m = _find_helper(c, cls, helpers)
+                        if h is None or h.node is fn or not h.ok or h.expr_form() is not None:
+                            continue
+                        bef = _evaluated_before(root, c)
+                        if bef is None or any(isinstance(x, ast.Call) and not _pure_call(x) for x in bef) or \
+                                any(isinstance(x, (ast.NamedExpr, ast.Await, ast.Yield)) for x in bef):
+                            continue
+                        taken = {n.id for n in ast.walk(fn) if isinstance(n, ast.Name)}
+                        nm = _fresh(f"{h.name.strip('_')}_value", taken)
+                        a = ast.Assign(targets=[ast.Name(id=nm, ctx=ast.Store())], value=c)
+                        ast.copy_location(a, s)
+                        repl = ast.copy_location(ast.Name(id=nm, ctx=ast.Load()), c)
+
+                        class R(ast.NodeTransformer):
+                            def visit_Call(self, n):
+                                if n is c:
+                                    return repl
+                                return self.generic_visit(n)
+                        if isinstance(s, ast.If):
+                            s.test = R().visit(s.test)
+                        else:
+                            s.value = R().visit(s.value)
+                        ast.fix_missing_locations(a)
+                        body.insert(i, a)
+                        hoisted = True
+                        break
+                    if hoisted:
+                        break
+                if hoisted:
+                    break
+            if hoisted:
+                break
     # ---------------- statement sites
     changed = True
     while changed:
@@ -546,6 +670,23 @@ def _inline_into(fn: ast.FunctionDef, cls: Optional[str], helpers, stats: Dict[s
                             n_.end_lineno = getattr(s, "end_lineno", s.lineno)
                     ast.fix_missing_locations(st)
                 tail: List[ast.stmt] = []
+                if kind == "assign" and len(s.targets) == 1 and isinstance(s.targets[0], ast.Tuple) and \
+                        not any(isinstance(e_, ast.Starred) for e_ in s.targets[0].elts):
+                    # `a, b = h(..)` and every branch of h ends in `res = (e1, e2)`: assign a and b in the branches
+                    res_assigns = [x for st in new_body for x in ast.walk(st) if isinstance(x, ast.Assign) and isinstance(x.targets[0], ast.Name)
+                                   and x.targets[0].id == res]
+                    res_loads = [x for st in new_body for x in ast.walk(st) if isinstance(x, ast.Name) and x.id == res and isinstance(x.ctx, ast.Load)]
+                    k_ = len(s.targets[0].elts)
+                    if res_assigns and not res_loads and all(isinstance(x.value, ast.Tuple) and len(x.value.elts) == k_ for x in res_assigns):
+                        class U(ast.NodeTransformer):
+                            def visit_Assign(self, x):
+                                if x in res_assigns:
+                                    tg_ = [copy.deepcopy(t_) for t_ in s.targets[0].elts]
+                                    a_ = ast.Assign(targets=[ast.Tuple(elts=tg_, ctx=ast.Store())], value=x.value)
+                                    return ast.fix_missing_locations(ast.copy_location(a_, x))
+                                return x
+                        new_body = [U().visit(st) for st in new_body]
+                        kind = "done"
                 if kind == "assign":
                     # a single trailing `res = E` becomes the original assignment
                     last = new_body[-1] if new_body else None
@@ -567,6 +708,15 @@ def _inline_into(fn: ast.FunctionDef, cls: Optional[str], helpers, stats: Dict[s
                 break
             if changed:
                 break
+    if progress and nested:
+        for (_, name), h in nested.items():
+            if not any(isinstance(x, ast.Name) and x.id == name and isinstance(x.ctx, ast.Load) for x in ast.walk(fn)):
+                for body in _bodies(fn):
+                    if h.node in body:
+                        body.remove(h.node)
+                        if not body:
+                            body.append(ast.copy_location(ast.Pass(), h.node))
+                        stats["helpers removed"] = stats.get("helpers removed", 0) + 1
     if progress:
         _flatten_pass(fn)
     return progress
